@@ -227,18 +227,64 @@ func junk(n int) []float64 {
 }
 
 // NViaModes is the number of provenance modes of NewVia.
-const NViaModes = 7
+const NViaModes = 11
+
+// ancestor is a tensor an operand was derived from, with the values it was built to hold.
+type ancestor struct {
+	what  string
+	x     tensor.Tensor
+	shape []int
+	v     []float64
+}
+
+var ancestors []ancestor
+
+// ResetAncestors forgets the tensors recorded by NewVia (call at the start of a case).
+func ResetAncestors() { ancestors = ancestors[:0] }
+
+func remember(what string, x tensor.Tensor, shape []int, v []float64) {
+	if len(ancestors) < 64 {
+		ancestors = append(ancestors, ancestor{what, x, append([]int{}, shape...), append([]float64{}, v...)})
+	}
+}
+
+// CheckAncestors verifies that every tensor an operand was derived from (the larger tensor it
+// was sliced from, the halves it was concatenated from, ...) still has the shape and elements
+// it was built with: a later call on the derived tensor must not write through to them.
+func CheckAncestors() error {
+	for _, a := range ancestors {
+		s, v, err := Read(a.x)
+		if err != nil {
+			return fmt.Errorf("%s became unreadable: %w", a.what, err)
+		}
+		if !ref.EqShape(s, a.shape) {
+			return fmt.Errorf("%s changed its shape from %v to %v", a.what, a.shape, s)
+		}
+		for i := range v {
+			if !SameBits(v[i], a.v[i]) {
+				return fmt.Errorf("%s changed element %v from %v to %v", a.what, ref.Unravel(i, s), a.v[i], v[i])
+			}
+		}
+	}
+	return nil
+}
 
 // NewVia builds a tensor of the given shape and values like New, but through a derivation
 // (provenance) chosen by via, so that the operand of a checked operation is not always a
 // fresh TensorOf result: state carried over from earlier calls or from the tensors it was
-// derived from (caches, shared storage) must not change what the operation computes.
+// derived from (caches, shared storage, flags set by constructors) must not change what the
+// operation computes.
 //   0 TensorOf directly            1 full-block Patch over a warmed tensor with other values
-//   2 warmed (all reducers called) 3 Slice of a warmed, larger tensor
+//   2 warmed (all reducers called) 3 Slice of a warmed, larger tensor (leading dimension)
 //   4 Reshape of a warmed flat one 5 Concat of two warmed halves
 //   6 Transpose of the warmed transposed data
+//   7 values patched block by block over a special constructor (Eye for square matrices,
+//     else Zeros / Ones / Full)    8 Slice out of the middle of the last dimension of a larger tensor
+//   9 element-wise product with Ones (result of an arithmetic operation)
+//   10 Concat along the last dimension of two pieces, the first a Slice of a larger tensor
 // Every derived tensor is turned into a fresh leaf with the requested tracking at the end.
-// Modes that do not apply to the shape fall back to mode 2.
+// Modes that do not apply to the shape fall back to mode 2. The tensors the result was derived
+// from are remembered (CheckAncestors).
 func NewVia(shape []int, v []float64, tracked bool, via int) (tensor.Tensor, error) {
 	if via <= 0 || via >= NViaModes {
 		return New(shape, v, tracked)
@@ -259,15 +305,19 @@ func NewVia(shape []int, v []float64, tracked bool, via int) (tensor.Tensor, err
 			return nil, e
 		}
 		x, err = other.Patch(nil, real)
+		remember("the tensor the operand was patched over", other, shape, junk(n))
+		remember("the block the operand was patched with", real, shape, v)
 	case via == 3 && rank >= 1:
 		big := append([]int{shape[0] + 1}, shape[1:]...)
 		row := n / shape[0]
-		bt, e := New(big, append(append([]float64{}, v...), junk(row)...), false)
+		bv := append(append([]float64{}, v...), junk(row)...)
+		bt, e := New(big, bv, false)
 		if e != nil {
 			return nil, e
 		}
 		warm(bt)
 		x, err = bt.Slice([]tensor.Range{{From: 0, To: shape[0]}})
+		remember("the larger tensor the operand was sliced from", bt, big, bv)
 	case via == 4 && rank != 1:
 		flat, e := New([]int{n}, v, false)
 		if e != nil {
@@ -275,20 +325,24 @@ func NewVia(shape []int, v []float64, tracked bool, via int) (tensor.Tensor, err
 		}
 		warm(flat)
 		x, err = flat.Reshape(append([]int{}, shape...))
+		remember("the flat tensor the operand was reshaped from", flat, []int{n}, v)
 	case via == 5 && rank >= 1 && shape[0] >= 2:
 		k := shape[0] / 2
 		row := n / shape[0]
-		a, e := New(append([]int{k}, shape[1:]...), v[:k*row], false)
+		sa, sb := append([]int{k}, shape[1:]...), append([]int{shape[0] - k}, shape[1:]...)
+		a, e := New(sa, v[:k*row], false)
 		if e != nil {
 			return nil, e
 		}
-		b, e := New(append([]int{shape[0] - k}, shape[1:]...), v[k*row:], false)
+		b, e := New(sb, v[k*row:], false)
 		if e != nil {
 			return nil, e
 		}
 		warm(a)
 		warm(b)
 		x, err = tensor.Concat([]tensor.Tensor{a, b}, 0)
+		remember("the first half the operand was concatenated from", a, sa, v[:k*row])
+		remember("the second half the operand was concatenated from", b, sb, v[k*row:])
 	case via == 6 && rank >= 2:
 		ts := append([]int{}, shape...)
 		ts[rank-1], ts[rank-2] = ts[rank-2], ts[rank-1]
@@ -304,6 +358,98 @@ func NewVia(shape []int, v []float64, tracked bool, via int) (tensor.Tensor, err
 		}
 		warm(tt)
 		x, err = tt.Transpose()
+		remember("the tensor the operand was transposed from", tt, ts, tv)
+	case via == 7 && rank >= 1:
+		// a special constructor's result, overwritten block by block (rows of the leading dim)
+		var base tensor.Tensor
+		var e error
+		switch {
+		case rank == 2 && shape[0] == shape[1]:
+			base, e = tensor.Eye(shape[0], Conf(false))
+		case n%3 == 0:
+			base, e = tensor.Zeros(append([]int{}, shape...), Conf(false))
+		case n%3 == 1:
+			base, e = tensor.Ones(append([]int{}, shape...), Conf(false))
+		default:
+			base, e = tensor.Full(append([]int{}, shape...), 0.5, Conf(false))
+		}
+		if e != nil {
+			return nil, e
+		}
+		row := n / shape[0]
+		x = base
+		for r := 0; r < shape[0] && err == nil; r++ {
+			blk, e := New(append([]int{1}, shape[1:]...), v[r*row:(r+1)*row], false)
+			if e != nil {
+				return nil, e
+			}
+			x, err = x.Patch([]tensor.Range{{From: r, To: r + 1}}, blk)
+		}
+	case via == 8 && rank >= 1:
+		// columns [1, 1+d) of a tensor with d+3 columns: the rows of the larger tensor continue
+		// past the end of the operand's rows
+		d := shape[rank-1]
+		big := append(append([]int{}, shape[:rank-1]...), d+3)
+		bv := make([]float64, n/d*(d+3))
+		for r := 0; r < n/d; r++ {
+			bv[r*(d+3)] = 2000.5 + float64(r)
+			copy(bv[r*(d+3)+1:], v[r*d:(r+1)*d])
+			bv[r*(d+3)+d+1] = 3000.5 + float64(r)
+			bv[r*(d+3)+d+2] = 4000.5 + float64(r)
+		}
+		bt, e := New(big, bv, false)
+		if e != nil {
+			return nil, e
+		}
+		idx := make([]tensor.Range, rank)
+		idx[rank-1] = tensor.Range{From: 1, To: 1 + d}
+		x, err = bt.Slice(idx)
+		remember("the wider tensor the operand was sliced from", bt, big, bv)
+	case via == 9:
+		real, e := New(shape, v, false)
+		if e != nil {
+			return nil, e
+		}
+		ones, e := tensor.Ones(append([]int{}, shape...), Conf(false))
+		if e != nil {
+			return nil, e
+		}
+		x, err = real.Mul(ones)
+		remember("the tensor the operand was computed from", real, shape, v)
+	case via == 10 && rank >= 1 && shape[rank-1] >= 2:
+		// Concat along the last dimension; the first piece is a Slice that stops before the
+		// end of a wider tensor's rows
+		d := shape[rank-1]
+		k := d / 2
+		rows := n / d
+		wide := append(append([]int{}, shape[:rank-1]...), d+1)
+		wv := make([]float64, rows*(d+1))
+		sb := append(append([]int{}, shape[:rank-1]...), d-k)
+		bvals := make([]float64, rows*(d-k))
+		for r := 0; r < rows; r++ {
+			copy(wv[r*(d+1):], v[r*d:r*d+k])
+			for j := k; j < d+1; j++ {
+				wv[r*(d+1)+j] = 5000.5 + float64(r*(d+1)+j)
+			}
+			copy(bvals[r*(d-k):], v[r*d+k:(r+1)*d])
+		}
+		wt, e := New(wide, wv, false)
+		if e != nil {
+			return nil, e
+		}
+		idx := make([]tensor.Range, rank)
+		idx[rank-1] = tensor.Range{From: 0, To: k}
+		a, e := wt.Slice(idx)
+		if e != nil {
+			return nil, e
+		}
+		b, e := New(sb, bvals, false)
+		if e != nil {
+			return nil, e
+		}
+		x, err = tensor.Concat([]tensor.Tensor{a, b}, rank-1)
+		remember("the wider tensor whose slice was the first piece of the operand", wt, wide, wv)
+		remember("the second piece the operand was concatenated from", b, sb, bvals)
 	default:
 		x, err = New(shape, v, false)
 		if err == nil {
